@@ -69,6 +69,36 @@ def cases(tier, rng, schema, feats):
     for b in range(256):
         add(b, b"", "cmd")
     out.append("C05.empty.0\tdec2\t")
+    # list members whose decoder keeps only the first entries (pubKeyCredParams keeps 2, attestation formats 2):
+    # a fault in ANY later entry is still a fault of the message
+    from . import c14 as _c14
+    long_params = [_c14.entry(-7, "public-key"), _c14.entry(-8, "public-key"), _c14.entry(-7, "public-key"),
+                   _c14.entry(-257, "public-key"), _c14.entry(-8, "public-key")]
+    long_fmts = ["packed", "none", "tpm", "android-key", "packed", "x"]
+    extra_seeds = [(0x01, cbor.M([(1, b"\x11" * 32), (2, cbor.M([("id", "example.com")])), (3, cbor.M([("id", b"\x01")])),
+                                  (4, long_params), (11, long_fmts)])),
+                   (0x02, cbor.M([(1, "example.com"), (2, b"\x22" * 32), (9, long_fmts)]))]
+    for cmd, tree in extra_seeds:
+        add(cmd, tree, "seed")
+        enc = cbor.enc(tree)
+        for k in range(0, len(enc)):
+            add(cmd, enc[:k], "trunc")
+        for path, node in mutate.paths(tree):
+            if not any(step[0] == "e" for step in path):
+                continue  # only nodes inside the lists
+            if isinstance(node, cbor.M):
+                for i in range(len(node.pairs)):
+                    add(cmd, mutate.dup_pair(tree, path, i), "dup")
+                add(cmd, mutate.replace(tree, path, cbor.Indef(node)), "indef")
+            if isinstance(node, (list, bytes, str, cbor.T)) and not isinstance(node, bool):
+                add(cmd, mutate.replace(tree, path, cbor.Indef(node)), "indef")
+            for w in mutate.wider_heads(node):
+                add(cmd, mutate.replace(tree, path, w), "nonmin")
+            if path[-1][0] in ("v", "e"):
+                for tn, other in mutate.other_types(node):
+                    if isinstance(node, int) and not isinstance(node, bool) and tn in ("uint", "nint"):
+                        continue
+                    add(cmd, mutate.replace(tree, path, other), "type")
     for cmd, t, tree in seeds(g, rng, tier):
         add(cmd, tree, "seed")
         enc = cbor.enc(tree)
